@@ -34,6 +34,17 @@ func (fr *Frame) execCall(x ssa.CallInstruction, st *State) (Val, *State) {
 		}
 		return fr.callDynamic(x, v.T, args, st)
 	}
+	// a call through a package-level function variable that the package itself only ever sets in its
+	// initializer (MarshalIndent = json.MarshalIndent, ...) is a call of that initial value.
+	// A-FUNCVAR: users who replace such an exported variable install a function with the same contract.
+	if u, ok := com.Value.(*ssa.UnOp); ok && u.Op == token.MUL {
+		if g, ok := u.X.(*ssa.Global); ok {
+			if target := fr.vc.L.funcVarInit(g); target != nil {
+				fr.vc.assumptions["A-FUNCVAR: the function variable "+g.Name()+" holds its initial value "+target.String()+" (or a replacement with the same contract)"] = true
+				return fr.callStatic(target, args, st, x.Pos(), x)
+			}
+		}
+	}
 	v := fr.val(com.Value)
 	if v.Clo != nil {
 		return fr.inlineCall(v.Clo.Fn, args, v.Clo.Bindings, st, x.Pos())
@@ -1682,4 +1693,58 @@ func ghostSort(name string) Sort {
 		return Sort("(Array Ptr Int)")
 	}
 	return SInt
+}
+
+// funcVarInit: for a package-level variable of function type that is stored to exactly once in the
+// whole package, and that in the package initializer with a function, that function; nil otherwise.
+func (L *Loaded) funcVarInit(g *ssa.Global) *ssa.Function {
+	if L.funcVarCache == nil {
+		L.funcVarCache = map[*ssa.Global]*ssa.Function{}
+		stores := map[*ssa.Global]int{}
+		inits := map[*ssa.Global]*ssa.Function{}
+		var visit func(f *ssa.Function)
+		seen := map[*ssa.Function]bool{}
+		visit = func(f *ssa.Function) {
+			if f == nil || seen[f] {
+				return
+			}
+			seen[f] = true
+			for _, b := range f.Blocks {
+				for _, ins := range b.Instrs {
+					if s, ok := ins.(*ssa.Store); ok {
+						if gg, ok := s.Addr.(*ssa.Global); ok {
+							stores[gg]++
+							if fn, ok := s.Val.(*ssa.Function); ok && f.Name() == "init" {
+								inits[gg] = fn
+							}
+						}
+					}
+				}
+			}
+			for _, a := range f.AnonFuncs {
+				visit(a)
+			}
+		}
+		for _, m := range L.SSA.Members {
+			switch x := m.(type) {
+			case *ssa.Function:
+				visit(x)
+			case *ssa.Type:
+				for _, t := range []types.Type{x.Type(), types.NewPointer(x.Type())} {
+					ms := L.SSA.Prog.MethodSets.MethodSet(t)
+					for i := 0; i < ms.Len(); i++ {
+						visit(L.SSA.Prog.MethodValue(ms.At(i)))
+					}
+				}
+			}
+		}
+		for gg, fn := range inits {
+			if stores[gg] == 1 {
+				if _, ok := gg.Type().(*types.Pointer).Elem().Underlying().(*types.Signature); ok {
+					L.funcVarCache[gg] = fn
+				}
+			}
+		}
+	}
+	return L.funcVarCache[g]
 }
